@@ -225,7 +225,7 @@ def lazy_case(draw, optimizer, tier):
 def real_case(draw, optimizer, tier):
     spec = draw(strategies.run_spec(
         optimizer, task=strategies.task_spec(encodings=strategies.CONTINUOUS_ENCODINGS, max_dim=4),
-        config=strategies.config_spec(optimizer, max_cycles=(1, 3), perturb=0.0, pop_mults=(1,)),
+        config=strategies.config_spec(optimizer, max_cycles=(1, 3), perturb=0.0, pop_mults=(1,), pop_offsets=(0,)),
         modes=("thread", "process", "process")))
     spec["workers"] = draw(st.integers(1, 16))
     spec["delay_salt"] = draw(st.integers(0, 1000))
